@@ -5,18 +5,22 @@
 (*     form, which must lex and parse back to a type reference (model-level). *)
 EXTENDS Names, TLC, Json
 
-CONSTANTS Alphabet, MaxLen, TypeDepth
+CONSTANTS Alphabet, MaxLen, TypeDepth, Prefix
+PfxNone == <<>>
+PfxExp == <<49, 101>>          \* "1e": the strings enumerated after it are exponent parts
+PfxFrac == <<49, 46>>          \* "1."
 Grammar == INSTANCE Grammar
 
 VARIABLES str, ty
 vars == <<str, ty>>
+Full == Prefix \o str
 NoType == <<"none">>
 
 Init == str = <<>> /\ ty = NoType
 NextStr == /\ ty = NoType /\ Len(str) < MaxLen
            /\ \E c \in Alphabet : str' = Append(str, c)
            /\ UNCHANGED ty
-NextTy == /\ ty = NoType /\ str = <<>>
+NextTy == /\ ty = NoType /\ str = <<>> /\ TypeDepth > 0
           /\ \E t \in TypesOfDepth({65, 66}, TypeDepth) : ty' = t
           /\ UNCHANGED str
 Next == NextStr \/ NextTy
@@ -30,7 +34,7 @@ PrintedTypeOK ==
       /\ Grammar!IsTypeRef([k \in 1..Len(TokenKindsOf(p)) |-> IF TokenKindsOf(p)[k] = "Name" THEN "n1" ELSE TokenKindsOf(p)[k]])
 
 Emit == IF ty = NoType
-        THEN PrintT(ToJson(<<"STR", str, IsName(str), IsIntLiteral(str), IsFloatLiteral(str)>>))
+        THEN PrintT(ToJson(<<"STR", Full, IsName(Full), IsIntLiteral(Full), IsFloatLiteral(Full)>>))
         ELSE PrintT(ToJson(<<"TYPE", ty, PrintType(ty)>>))
 Inv == PrintedTypeOK /\ Emit
 =============================================================================
